@@ -34,7 +34,8 @@ def opsOK : List Op :=
    .sleep 5, .discover [2, 0, 0, 0, 0, 4]]
 
 /-- Mixed hardware-address lengths: three 8-byte clients fill the pool, then a
-6-byte client whose address is the prefix of the second one's sends DISCOVER. -/
+6-byte client whose address is the prefix of the second one's sends DISCOVER
+(the pattern of R5, repaired by a691f53). -/
 def opsMixed : List Op :=
   [.discover [2, 0, 0, 0, 0, 1, 7, 7], .discover [2, 0, 0, 0, 0, 2, 7, 7], .discover [2, 0, 0, 0, 0, 3, 7, 7],
    .discover mB]
